@@ -14,7 +14,7 @@
 //! filter), SymmetricHashJoin (single partition / partitioned; optionally with inputs sorted on the
 //! payload + declared sort exprs so the pruning path runs), CrossJoin, PiecewiseMergeJoin (buffered
 //! side sorted as the operator requires)}; all 10 join types; both `NullEquality` modes; optional
-//! residual `JoinFilter` (10 shapes, three-valued); `batch_size` ∈ {1,2,3,5,8192};
+//! residual `JoinFilter` (10 shapes, three-valued); `batch_size` ∈ {1,2,3,5,12,25,8192};
 //! `enforce_batch_size_in_joins`; perfect-hash-join thresholds (default / disabled / forced);
 //! optional embedded projection (hash, nested loop, sort merge); optional `fetch` (hash join);
 //! optional memory limit (Greedy/FairSpill pool + private spill directory); consumption mode
@@ -278,7 +278,17 @@ fn filter_spec() -> BoxedStrategy<Option<FilterSpec>> {
     .boxed()
 }
 
+/// Probe aid (default off): `VF_C05_OP=<Op name>` restricts generation to one operator so that
+/// several single-operator mutations can be checked with one mutated build.
+fn op_filter() -> Option<Op> {
+    let v = std::env::var("VF_C05_OP").ok()?;
+    [Op::HashCollect, Op::HashPart, Op::HashNullAware, Op::SortMerge, Op::NestedLoop, Op::SymHash, Op::Cross, Op::Piecewise].into_iter().find(|o| format!("{o:?}") == v)
+}
+
 fn op_strategy() -> BoxedStrategy<Op> {
+    if let Some(op) = op_filter() {
+        return Just(op).boxed();
+    }
     prop_oneof![
         4 => Just(Op::HashCollect),
         3 => Just(Op::HashPart),
@@ -325,7 +335,10 @@ fn case_strategy(tier: Tier) -> BoxedStrategy<Case> {
                 ]
                 .boxed(),
             };
-            let core = (prop::sample::select(jts), any::<bool>(), side(kind, max_rows, nullw), side(kind, max_rows, nullw), filt, prop::sample::select(vec![1u16, 2, 3, 5, 8192, 8192]), any::<bool>(), 1u8..=4);
+            // the nested-loop join probes the buffered left side in ranges of batch_size / right_rows (> 10) rows:
+            // give it a left side that can exceed one such range
+            let left_rows = if op == Op::NestedLoop { 2 * max_rows + 2 } else { max_rows };
+            let core = (prop::sample::select(jts), any::<bool>(), side(kind, left_rows, nullw), side(kind, max_rows, nullw), filt, prop::sample::select(vec![1u16, 2, 3, 5, 12, 25, 8192, 8192]), any::<bool>(), 1u8..=4);
             let opts = (
                 prop::collection::vec((any::<bool>(), any::<bool>()), 2),
                 any::<bool>(),
@@ -337,7 +350,7 @@ fn case_strategy(tier: Tier) -> BoxedStrategy<Case> {
                 prop::option::weighted(0.1, 0u8..12),
                 mem,
                 prop::sample::select(vec![Consume::Coalesce, Consume::Sequential, Consume::Concurrent]),
-                prop::sample::select(vec![0u8, 0, 0, 2]),
+                prop::sample::select(vec![0u8, 0, 0, 0, 0, 2]),
             );
             (core, opts).prop_map(move |((jt, null_eq_null, left, right, filter, batch_size, enforce_batch, nparts), (sort, shj_part, shj_sorted, nlj_keys, pw_op, phj, projection, fetch, mem, consume, threads))| {
                 let null_eq_null = if op == Op::HashNullAware { false } else { null_eq_null };
@@ -965,7 +978,8 @@ impl Property for C05 {
         case_strategy(tier)
     }
     fn budget(&self, tier: Tier) -> Budget {
-        Budget::new(tier.pick(10_000, 400_000), tier.pick(8, 16)).min_nontrivial(tier.pick(1_500, 50_000)).case_timeout(60)
+        let cases = std::env::var("VF_CASES").ok().and_then(|v| v.parse().ok()).unwrap_or(tier.pick(6_000, 400_000));
+        Budget::new(cases, tier.pick(8, 16)).min_nontrivial(tier.pick(1_000, 50_000)).case_timeout(60)
     }
     fn rule(&self) -> String {
         "two generated tables (0-10 rows quick / 0-32 thorough; NULL/duplicate/extreme keys, batch cuts, partitions, Pending jitter) x join operator x 10 join types x NullEquality x optional residual filter x batch size/config; \
